@@ -105,7 +105,7 @@ def step : List String → Option String
     let evs ← evs.mapM parseHs?
     let tok := fun p => tokFun (toks.getD p [])
     let g := runHs m t false (initStores m t false tok) evs
-    pure ("/".intercalate ((List.range m).map fun i => showStore (g i)))
+    pure ("/".intercalate ((List.range m).map fun i => showStore (g.get i)))
   | ["tableok", m, t, rows] => do
     let m ← parseNat? m; let t ← parseNat? t
     let rows ← (rows.splitOn "/").mapM parseRow?
